@@ -122,7 +122,10 @@ def loop_nodes(L):
     else:
         g.update({"k": "route", "targets": ["b0", stop], "fallback": None, "multi": False, "expr": f"'b0' if {cond} else '{stop}'"})
     nodes.append(g)
-    if L["exit"] == "node":
+    if L["exit"] == "node" and L.get("exit_ext"):
+        # an exit node that reads nothing of the loop: it is downstream of the body ONLY through the gate's control edge
+        nodes.append({"k": "func", "name": "done", "params": ["xd"], "defaults": {}, "outs": ["res"], "expr": "('done', xd)"})
+    elif L["exit"] == "node":
         nodes.append({"k": "func", "name": "done", "params": ["i"], "defaults": {}, "outs": ["res"], "expr": "('done', i)"})
     if L.get("nullable"):
         nodes.append({"k": "func", "name": "zf", "params": ["z", "i"], "defaults": {}, "outs": ["z"], "expr": "None if i % 2 == 1 else (z, i)"})
@@ -174,6 +177,8 @@ def loop_values(L):
         vals["z"] = ("seed",)
     if L["form"] == "selfsignal":
         vals["tot"] = ()
+    if L.get("exit_ext") and L["exit"] == "node" and L["form"] not in ("selfsignal", "chat"):
+        vals["xd"] = 7
     if L["form"] == "chat":
         vals = {k: v for k, v in vals.items() if k != "i"}
         vals["messages"] = ()
@@ -267,7 +272,10 @@ def eval_loop(L):
         while state["i"] < limit:
             body()
             iterations += 1
-    if L["exit"] == "node":
+    if L["exit"] == "node" and L.get("exit_ext"):
+        env["res"] = ("done", 7)
+        traj["res"] = [("done", 7)]
+    elif L["exit"] == "node":
         env["res"] = ("done", state["i"])
         traj["res"] = [("done", v) for v in traj["i"]]
     if L.get("acc"):
